@@ -386,7 +386,6 @@ func callCannotStore(call ssa.CallInstruction, fv *types.Var, depth int, seen ma
 	return true
 }
 
-
 // consumingFuncs: functions that (transitively) perform a read on an io.Reader.
 func consumingFuncs(scope []*ssa.Function) map[*ssa.Function]bool {
 	consuming := map[*ssa.Function]bool{}
